@@ -249,20 +249,25 @@ let bg_enabled c s =
   (||) (N.ltb c.c_max_wal_bytes s.wal_size)
     (N.ltb c.c_max_wal_files (N.sub s.next_wal s.earliest))
 
+(** val flush_mid :
+    bool -> cfg -> oracle -> db -> (name * tstate) list res **)
+
+let flush_mid guard c o s =
+  bind (freeze_all s.tabs) (fun l0 -> flush_tables guard c o (map fst l0) l0)
+
 (** val flush : bool -> cfg -> oracle -> db -> db res **)
 
 let flush guard c o s =
   let lo = s.earliest in
   let hi = s.next_wal in
-  bind (freeze_all s.tabs) (fun l0 ->
-    bind (flush_tables guard c o (map fst l0) l0) (fun l1 ->
-      bind (map_tabs SNoTable (fun t -> Some (publish_meta t)) l1) (fun l2 ->
-        bind (delete_orphans l2) (fun l3 ->
-          bind
-            (of_opt SDeleteMissing
-              (delete_segments (N.to_nat (N.sub hi lo)) lo s.d_wal))
-            (fun w -> Val { tabs = l3; next_wal = hi; earliest = hi;
-            wal_size = N0; d_cursor = (Some hi); d_wal = w; acked = s.acked })))))
+  bind (flush_mid guard c o s) (fun l1 ->
+    bind (map_tabs SNoTable (fun t -> Some (publish_meta t)) l1) (fun l2 ->
+      bind (delete_orphans l2) (fun l3 ->
+        bind
+          (of_opt SDeleteMissing
+            (delete_segments (N.to_nat (N.sub hi lo)) lo s.d_wal)) (fun w ->
+          Val { tabs = l3; next_wal = hi; earliest = hi; wal_size = N0;
+          d_cursor = (Some hi); d_wal = w; acked = s.acked }))))
 
 (** val insert_seg :
     (coq_N * segment) -> (coq_N * segment) list -> (coq_N * segment) list **)
